@@ -15,4 +15,4 @@ for f in sorted(glob.glob(os.path.join(VERIF, "seeded", "*", "meta.json"))):
         parts.append("%s: %s" % (p, {0: "not reported", 1: "**VIOLATION**", 3: "inconclusive (exit 3)"}.get(r["exit"], "exit %s" % r["exit"])))
     summ = (m.get("summary") or "").replace("|", "/").replace("\n", " ")
     need = (m.get("needs_to_manifest") or "").replace("|", "/").replace("\n", " ")
-    print("| %s | %s | %s *(%s)* | %s%s |" % (m.get("seed_id"), m.get("property"), summ[:220], need[:200], "; ".join(parts) or "not run", (" - " + m["note"]) if m.get("note") else ""))
+    print("| %s | %s | %s *(%s)* | %s%s |" % (m.get("seed_id"), m.get("property"), summ[:170], need[:150], "; ".join(parts) or "not run", (" - " + m["note"]) if m.get("note") else ""))
